@@ -74,7 +74,7 @@ def staging_leg(ctx):
     saved_tmp = tempfile.tempdir
     tempfile.tempdir = tmp_root  # script(tempdir=True) scratch directories go here, not under /tmp
     n = 0
-    shapes = ["single-staging", "list", "dict", "nested", "self-staged", "stdout", "mixed-const"]
+    shapes = ["single-staging", "list", "dict", "nested", "self-staged", "stdout", "mixed-const", "same-local"]
     for layout in ("separate-dirs", "tempdir-same-names"):
         for shape in shapes:
             for n_inputs in (0, 1, 2):
@@ -93,7 +93,8 @@ def staging_leg(ctx):
                     checks.append(f'test "$(cat {L(f"in{i}")})" = "input-{i}" || exit 41')
                 o1, o2 = File(R("out1")).stage(L("out1")), File(R("out2")).stage(L("out2"))
                 cmd_out = f'echo -n result1 > {L("out1")}; echo -n result2 > {L("out2")}; echo -n result3 > {R("self")}; echo -n STDOUT'
-                outputs = {"single-staging": o1, "list": [o1, o2], "dict": {"a": o1, "b": o2}, "nested": {"k": [o1, {"z": o2}]},
+                o3 = File(R("out3")).stage(L("out1"))  # a second remote destination for the SAME local file
+                outputs = {"same-local": [o1, o3], "single-staging": o1, "list": [o1, o2], "dict": {"a": o1, "b": o2}, "nested": {"k": [o1, {"z": o2}]},
                            "self-staged": File(R("self")), "stdout": File("-"), "mixed-const": [o1, 5, "s", File("-")]}[shape]
                 command = "\n".join(checks + [cmd_out])
                 case = {"outputs": shape, "inputs": n_inputs, "layout": layout}
@@ -142,6 +143,11 @@ def staging_leg(ctx):
                     used = shape in ("list", "dict", "nested") or (name == "out1" and shape in ("single-staging", "mixed-const"))
                     if used and (not os.path.exists(R(name)) or open(R(name)).read() != content):
                         ctx.violation(f"output-not-unstaged:{shape}:{layout}", case, f"{case}: remote {name} missing or wrong after the script")
+                if shape == "same-local":
+                    for name in ("out1", "out3"):
+                        if not os.path.exists(R(name)) or open(R(name)).read() != "result1":
+                            ctx.violation(f"output-not-unstaged:{shape}:{layout}", case, f"{case}: remote {name} missing or wrong after the script "
+                                          "(one local file staged to two remote destinations)")
     tempfile.tempdir = saved_tmp
     shutil.rmtree(tmp_root, ignore_errors=True)
     shutil.rmtree(root, ignore_errors=True)
@@ -160,6 +166,12 @@ def run(ctx):
             for rest in itertools.product(lines, repeat=k):
                 for indent in (0, 4):
                     items.append((first, rest, indent))
+    # first lines that merely CONTAIN "#!" (no shebang): the default shell header is still required
+    for first in ('cat "$0"; exit 0 #!/bin/sh', "cat \"$0\"; exit 0; echo '#!/bin/sh' > /dev/null"):
+        for k in range(0, 2):
+            for rest in itertools.product(lines, repeat=k):
+                for indent in (0, 4):
+                    items.append((first, rest, indent))
     items = ctx.rotate(items)
     chunks = [items[i:i + 40] for i in range(0, len(items), 40)]
     res = ctx.pmap(work, chunks, chunksize=1)
@@ -169,10 +181,10 @@ def run(ctx):
     n2 = staging_leg(ctx)
     return {"coverage": {
         "evaluations": sum(r["n"] for r in res) + n2, "distinct_nontrivial": sum(r["outs"] for r in res), "staging_runs": n2, "exhaustive": True,
-        "rule": f"every command text made of a self-printing first line (shebang '#!/bin/cat', or 'cat \"$0\"; exit 0' under the default shell) "
+        "rule": f"every command text made of a self-printing first line (shebang '#!/bin/cat', or 'cat \"$0\"; exit 0' under the default shell, also with '#!' later on that line) "
         f"followed by every sequence of <= {n} lines from {len(lines)} lines chosen against the heredoc (EOF, EOF1, EOF2, quotes, $(), backticks, "
         "backslashes, trailing/leading spaces, empty), plain and indented; the wrapper is executed by real bash and its stdout (= the script file) "
         "must equal the reference-prepared command byte for byte; terminator never equals a line; default shell header iff no shebang. Plus "
-        "script() through the scheduler for 7 output shapes x 0-2 staged inputs x 2 layouts (local copies in another directory; tempdir=True with the same relative names)",
+        "script() through the scheduler for 8 output shapes (incl. one local file unstaged to two remote destinations) x 0-2 staged inputs x 2 layouts (local copies in another directory; tempdir=True with the same relative names)",
         "samples": [repr(i) for i in items[:2]],
     }, "assumptions": ["bash and cat are the system's; local filesystem staging only"]}
